@@ -425,7 +425,7 @@ def run(case: dict, ctx) -> dict:
             if k == "hdd":
                 return streams.open_kind("hdd-storages", rng, fake)
             if k == "hdd-abs":
-                return _hdd_abs(rng, fake)
+                return chains.hdd_abs(rng, fake)
             return streams.open_kind(rng.choice(streams.KINDS), rng, fake)
 
         before_dirs = True
@@ -487,34 +487,6 @@ def run(case: dict, ctx) -> dict:
     res["sig"] = (k, case["r"], fault)
     res["sample"] = {"entry_point": k, "fault": fault, "repo_opens": [(o_["site"], o_["mode"]) for o_ in ctx.audit.opens[:4]], "files_in_evidence": len(before)}
     return res
-
-
-def _hdd_abs(rng, fake):
-    """Image <File> entries with absolute paths that do not exist: the reader's fall-back candidates are exercised."""
-    from dissect.hypervisor.disk.hdd import HDD
-
-    base = Path(fake.tmpdir())
-    variant = rng.choice(["same-hdd", "sibling-hdd", "pvm"])
-    g = whds.DEFAULT_TOP
-    sf, layer, meta = whds.build_hds(rng, version=2, m_sectors=8, nclusters=6, tag=rng.getrandbits(32))
-    nsec = meta["size"] // SECTOR
-    if variant == "same-hdd":
-        hd = base / "vm.pvm" / "disk.hdd"
-        target = hd / "img.hds"
-        ref = "/other/place/x.pvm/x.hdd/img.hds"
-    elif variant == "sibling-hdd":
-        hd = base / "vm.pvm" / "disk.hdd"
-        target = base / "vm.pvm" / "orig.hdd" / "img.hds"
-        ref = "/elsewhere/a.pvm/orig.hdd/img.hds"
-    else:
-        hd = base / "clones" / "vm.pvm" / "disk.hdd"
-        target = base / "orig.pvm" / "orig.hdd" / "img.hds"
-        ref = "/gone/orig.pvm/orig.hdd/img.hds"
-    hd.mkdir(parents=True)
-    target.parent.mkdir(parents=True, exist_ok=True)
-    sf.write_to(target)
-    whds.write_hdd_dir(str(hd), [{"start": 0, "end": nsec, "images": [{"guid": g, "type": "Compressed", "file": ref}]}], [(g, whds.NULL_GUID)])
-    return streams.Opened(HDD(hd).open(), None)
 
 
 def _repo_tests(ctx, res):
